@@ -366,7 +366,9 @@ InitM(code) ==
    halt |-> "", why |-> "", maxStack |-> 0, maxDepth |-> 0,
    fuzzy |-> FALSE,                \* some operand or coordinate is not exact in single precision
    vsindex |-> -1, seenBlend |-> FALSE,
-   seac |-> 0, acc |-> <<>>]       \* seac: 0 none, 1 in base, 2 in accent; acc = <<adx, ady, accent glyph id>>
+   seac |-> 0, acc |-> <<>>,       \* seac: 0 none, 1 in base, 2 in accent; acc = <<adx, ady, accent glyph id>>
+   compRet |-> <<FALSE, FALSE>>]   \* a subroutine called while the base / the accent of a seac glyph is drawn has
+                                   \* returned to code that goes on (statistic: which programs exercise that)
 
 Depth(m) == Len(m.frames) - 1
 Top(m)   == m.frames[Len(m.frames)]
@@ -458,7 +460,10 @@ Op_call(fc, m, global) ==
 Op_return(fc, m) ==
   IF fc.kind = "cff2" THEN Fail(m, "InvalidOperator")
   ELSE IF Depth(m) = 0 THEN Fail(m, "ReturnAtTopLevel")
-  ELSE [m EXCEPT !.frames = SubSeq(@, 1, Len(@) - 1)]
+  ELSE LET f == m.frames[Len(m.frames) - 1] IN       \* the caller goes on behind the call
+       IF m.seac > 0 /\ f.pc <= Len(f.code)
+       THEN [m EXCEPT !.frames = SubSeq(@, 1, Len(@) - 1), !.compRet[m.seac] = TRUE]
+       ELSE [m EXCEPT !.frames = SubSeq(@, 1, Len(@) - 1)]
 
 \* Start a seac component: a complete charstring of its own (own width prefix, own hints)
 StartComp(fc, m, gid, which, x, y) ==
@@ -547,7 +552,8 @@ Op_blend(fc, m) ==
   BlendWith(m, have - need, n, k,
             SubSeq(m.stack, have - need + 1, have - need + n),        \* the n default values
             SubSeq(m.stack, have - need + n + 1, have),               \* n groups of k deltas
-            [j \in 1 .. k |-> RegionScalar(regs[j], fc.tuple)])
+            \* (evaluated once: a function constructor is re-evaluated at every application)
+            TLCEval([j \in 1 .. k |-> RegionScalar(regs[j], fc.tuple)]))
 
 ---------------------------------------------------------------------------
 \* One step: one item of the charstring on top of the call stack
